@@ -34,7 +34,7 @@ RULE = ("seeded (period, max_age in {1,1.5,3,10}, initial/max buffer lengths {1,
 REQUIRED_BUCKETS = ["tick-nonempty", "tick-empty(None)", "sample-exactly-T", "sample-exactly-T-minus-age",
                     "future-sample-excluded", "old-sample-excluded", "none-or-nan-input", "zero-valued-input", "input-period-estimated",
                     "buffer-resized", "buffer-evicted", "upsampling", "downsampling", "silence>max-age",
-                    "default-resampling-function", "infinite-valued-input", "equal-timestamps", "series-share-a-name", "function-result-NaN"]
+                    "default-resampling-function", "infinite-valued-input", "samples-stamped-in-a-non-utc-zone", "equal-timestamps", "series-share-a-name", "function-result-NaN"]
 REQUIRED_COUNTERS = ["ticks_compared", "function_calls_observed", "input_period_estimates_checked"]
 ASSUMPTIONS = ["time-ordered inputs; virtual clock"]
 
@@ -67,7 +67,7 @@ def gen(rng: Any, tier: str, i: int) -> Any:
                               weights=[50, 10, 8, 5, 10, 7, 10, 6])[0]
             vk = "ok" if r > 0.15 else rng.choice(odd)
             ev.append([d, tsk, vk])
-        series.append({"add_at": 0.0, "events": ev, "ip": ip})
+        series.append({"add_at": 0.0, "events": ev, "ip": ip, "tz_min": rng.choice([0, 0, 0, 120, -300, 345])})
     return {"period": period, "align": 0.0, "start_offset": rng.choice([0.0, 0.3, 0.999999, period / 2, 17.25]),
             "max_age": age, "init_len": init, "max_len": maxlen, "ticks": ticks, "series": series, "lat": [],
             "drain_periods": 2, "fn": fn_kind,
@@ -93,6 +93,8 @@ def check(case: dict[str, Any], rec: Any) -> None:
             rec.bucket("none-or-nan-input")
         if any(v == "zero" for _, _, v in s["events"]):
             rec.bucket("zero-valued-input")
+        if s.get("tz_min"):
+            rec.bucket("samples-stamped-in-a-non-utc-zone")
         if any(v == "inf" for _, _, v in s["events"]):
             rec.bucket("infinite-valued-input")
         if any(k == "same" for _, k, _ in s["events"][1:]):
